@@ -19,6 +19,11 @@ def model_check(ctx):
     # the heap trie equals the value-level trie, snapshots are isolated, frozen nodes never change
     ctx.model_check("trie", "MC_MPTHeap", "MC_MPTHeap.cfg", timeout=ctx.pick(900, 3000),
                     constants={"MaxOps": ctx.pick("4", "6")})
+    # ... with the persistence states: flush (flushed nodes + database), ClearCache (flushed nodes become hash references,
+    # pointers of frozen nodes rewired), reload (root hash reference), realization from the database on set/delete/get:
+    # no sequence of flush/clear/reload changes Get, the structure or the root
+    ctx.model_check("trie", "MC_MPTHeap", "MC_MPTHeap_cache.cfg", timeout=ctx.pick(900, 3000),
+                    constants={"MaxOps": ctx.pick("6", "8")})
     # three-symbol alphabet, three value sizes (29 bytes straddles the embed/hash limit), bounded depth
     ctx.model_check("trie", "MC_MPT", "MC_MPT_w3.cfg", timeout=ctx.pick(600, 3000),
                     constants={"MaxOps": ctx.pick("3", "4")})
